@@ -9,7 +9,7 @@ CHECKS = {
  "C02": ("exploration", "Seeded search over invocation/edit histories against an independent reference model (own walker, own records): every observed skip must be justified by a record taken at the target's last successful completion and by the model's comparison (same file set, per file mtime-or-content, same command outputs).", "§7 C02"),
  "C03": ("exploration", "Same history engine on untouched trees, multi-project layouts, identical command text / relative paths in different project directories, other targets failing in the same invocation: a target with inputs, a definite model record and content-equal resources must not have its script started.", "§7 C03"),
  "C04": ("exploration", "Seeded search over schedules and graph shapes (deep chains, fan-in/fan-out beyond 2x the shipped queue capacity): the run must never reach a state with no runnable task and no enabled event before main returns (stall detection is exact in a one-thread simulation).", "§7 C04"),
- "C05": ("fault_enumeration", "For sampled scenarios and schedules: zinoma killed at EVERY scheduling decision index of the run, SIGINT at every (quick: every 2nd) index, every script outcome (exit!=0, signal, EAGAIN), every strict prefix of each record (quick: 32+16 lengths), single-bit flips with and without a changed input, garbage and foreign records; each followed by a recovery invocation judged against the complete run R0.", "§7 C05"),
+ "C05": ("fault_enumeration", "For sampled scenarios and schedules: zinoma killed at EVERY scheduling decision index of the run, SIGINT at every (quick: every 2nd) index, every script outcome (exit!=0, signal, EAGAIN), every strict prefix of each record (quick: 32+16 lengths; real torn writes also arise because crash points fall between the write() calls of the record), single-bit flips (tree unchanged / own input rewritten / declared output altered), every byte zeroed with an output altered, garbage and foreign records, the interruptions again followed by a revert of the edited inputs, and each failing script combined with an I/O error on zinoma's own n-th stat/unlink/open; each followed by a recovery invocation judged against the complete run R0 and the scripts' real exit statuses.", "§7 C05"),
  "C06": ("exploration", "Seeded search over --watch sessions (populated and clean trees) with bursts of edits gated to land while idle, inside a chosen build, or back to back; version-stamped virtual scripts; at the final idle point outputs must equal the stamp of the final inputs and services must run an instance started from them.", "§7 C06"),
  "C07": ("exploration", "Seeded search over schedules x failing subsets injected through the fault plan (non-zero exit, death by signal, EAGAIN at spawn) in one-shot and --watch runs: non-zero exit naming a failed target, dependents never started / stay blocked, warning + still watching in watch mode, no stall.", "§7 C07"),
  "C08": ("exploration", "Seeded search over schedules with duplicate / double-spelled requests, shared dependencies and --clean T: counts of starts+skips per target and byte comparison of outsiders' state and outputs before/after.", "§7 C08"),
@@ -61,7 +61,7 @@ for pid in sorted(CHECKS):
       "replay_cmd_template": "./check --replay {path}",
       "engine": "zsim",
       "level_claimed": {"category": level, "text": text, "design_ref": "DESIGN.md " + ref},
-      "level_note": "Trusted base: the shim crates' models of the executor, blocking pool, processes, inotify and signals (DESIGN.md §12); atomicity of blocking closures; sampling of schedules, not enumeration.",
+      "level_note": "Trusted base: the shim crates' models of the executor (nested block_on = blocked worker), processes, inotify and signals (DESIGN.md §12; the inotify model is compared with the real notify crate by ./check stub-conformance, skip/build decisions of whole histories with the real binary by ./check real-diff); blocking-pool closures run on controlled threads and interleave at intercepted file-system calls, reads inside a closure are not split; schedules are sampled, not enumerated.",
       "technique": TECH,
     })
 for pid, why in sorted({**NOT_APPLICABLE, **PENDING}.items()):
